@@ -479,6 +479,12 @@ class Ellipse:
 
         # now, go from initial sma inwards towards center.
         while True:
+            # with linear growth the first inward step can land on (or
+            # beyond) the center; the central isophote (sma = 0) is
+            # handled below and must not be fitted twice
+            if sma <= 0.0:
+                break
+
             isophote = self.fit_isophote(sma, step, conver, minit, maxit,
                                          fflag, maxgerr, sclip, nclip,
                                          integrmode, linear, maxrit,
